@@ -207,6 +207,17 @@ class MustWrite:
                 e, ee = set(), False
             # a branch that always leaves (ends in return/throw) does not constrain the other: handled conservatively
             both = t & e
+            # null-guarded reset idiom:  if (p != NULL) { ...; p = NULL; }   (no else)  =>  p == NULL afterwards on both
+            # paths, which is the value a fresh object has: counts as a (re)initialisation of p
+            if not T.is_node(s[4]):
+                c = T.strip_casts(s[2])
+                tested = None
+                if T.is_node(c) and c[0] == "Bin" and c[2] == "!=" and T.lit_value(c[4]) == 0:
+                    tested = self.path_of(c[3])
+                elif T.is_node(c) and c[0] == "Member":
+                    tested = self.path_of(c)
+                if tested is not None and tested in t and self._assigns_null(s[3], tested):
+                    both = both | {tested}
             return acc | both, (te or ee or self._has_exit(s[3]) or self._has_exit(s[4]))
         if k == "For":
             acc = set()
@@ -245,6 +256,21 @@ class MustWrite:
             return set(), False
         # expression statement
         return self.expr_writes(s, f, in_const_loop), (s[0] == "Throw")
+
+    def _assigns_null(self, s, path):
+        """does statement s contain  <path> = NULL / 0 / nullptr  as its last write of path (top-level statement of s)?"""
+        stmts = s[2] if T.is_node(s) and s[0] == "Compound" else [s]
+        last = None
+        for st in stmts:
+            if not T.is_node(st):
+                continue
+            for tgt, how, line, node in T.writes(st):
+                if self.path_of(tgt) == path:
+                    last = (how, node)
+        if last is None:
+            return False
+        how, node = last
+        return how == "=" and node[0] == "Bin" and T.lit_value(node[4]) == 0
 
     def _has_exit(self, s, loop=False):
         for x in T.walk(s):
